@@ -35,10 +35,10 @@ func TestVerifC16Match(t *testing.T) {
 		nb := 1 + r.Intn(5)
 		// few distinct policies per case: agreement must be common
 		type pol struct {
-			ns    string
-			refs  int
-			wk    bool
-			host  string
+			ns   string
+			refs int
+			wk   bool
+			host string
 		}
 		var pool []pol
 		base := pol{ns: []string{"a", "b"}[r.Intn(2)], refs: r.Intn(len(refPool)), wk: r.Chance(1, 3), host: []string{"h1.example.com", "h2.example.com"}[r.Intn(2)]}
